@@ -39,6 +39,7 @@ def make_cfg(nid):
     gen.add_tpdo(cfg, 0, 0x40000180, 254, 0, 0, [gen.maplink(0x2001, 0, 8)])
     gen.add_tpdo(cfg, 1, 0x40000280, 1, 0, 0, [gen.maplink(0x2001, 0, 8)])
     cfg.emcy = [(0, 0x1000)]
+    gen.add_csdo(cfg, 0, server=2)
     cfg.finalize()
     return cfg
 
@@ -224,6 +225,21 @@ def probes(m, sim, chk, res):
             return False
     if live:
         m.dom = dom
+    # P1c SDO client: a request of the application goes out in PRE-OPERATIONAL and OPERATIONAL only (SDO is not permitted elsewhere)
+    if mode != DEAD:
+        chk.what = "probe SDO client request in mode %d" % mode
+        evs = sim.cmd("csdoup 0 2000 0 4 1000")
+        r = [e for e in evs if e[0] == "ret"]
+        ok_req = bool(r) and r[0][1] == "0"
+        if live != ok_req:
+            chk.fail("csdo/request", "COCSdoRequestUpload returned %r in mode %d (reference: %s)" % (r, mode, "accepted" if live else "refused"))
+            return False
+        if not chk.step(evs, [(0x602, bytes([0x40, 0x00, 0x20, 0x00, 0, 0, 0, 0]))] if live else [], (0, 0), None, "csdo"):
+            return False
+        if live:
+            evs = sim.rx(0x582, bytes([0x80, 0x00, 0x20, 0x00, 0x00, 0x00, 0x02, 0x06]))
+            if not chk.step(evs, [], (0, 0), {"csdo": 1}, "csdo-answer"):
+                return False
     # P2 RPDO
     v = (m.nprobe * 7 + 3) & 0xFF
     chk.what = "probe RPDO in mode %d" % mode
